@@ -1048,7 +1048,7 @@ class UnicodeDammit:
         b"\x9c": ("oelig", "153"),
         b"\x9d": "?",
         b"\x9e": ("#x17E", "17E"),
-        b"\x9f": ("Yuml", ""),
+        b"\x9f": ("Yuml", "178"),
     }
 
     #: A parochial partial mapping of ISO-Latin-1 to ASCII. Contains
